@@ -677,6 +677,53 @@ def gen_huge_election(rng: random.Random, m=(2, 5), n=(1, 5)):
     return Case(projects, budget, "card", ballots, seed=sub)
 
 
+# names that mix purely numeric identifiers (as in Pabulib files), numbers with leading zeros, and alphanumeric ones: an order on
+# projects that treats some pairs "naturally" and others as strings is not transitive on them ("2" < "10" < "1a" < "2")
+MIXED_NAMES = ["2", "10", "1a", "9", "07", "100", "1", "a1", "A1", "b", "10a", "3b", "20", "02", "z", "P2", "p10", "p9", "11", "1_0"]
+
+
+def rename_case(case: "Case", mapping) -> "Case":
+    """the same election with other project names (ranks follow the new names' string order)"""
+    def rb(b):
+        if case.btype in ("card", "cum"):
+            return {mapping[k]: v for k, v in b.items()}
+        return [mapping[k] for k in b]
+
+    return Case([(mapping[n], c) for n, c in case.projects], case.budget, case.btype, [rb(b) for b in case.ballots], case.seed, **case.cfg)
+
+
+def with_mixed_names(rng: random.Random, case: "Case") -> "Case":
+    names = [n for n, _ in case.projects]
+    if len(names) > len(MIXED_NAMES):
+        return case
+    new = rng.sample(MIXED_NAMES, len(names))
+    return rename_case(case, dict(zip(names, new)))
+
+
+def gen_neartie_election(rng: random.Random, m=(2, 5), n=(2, 5)):
+    """cardinal elections whose per-project price-per-utility values are CLOSE without being equal: every score is a
+    multiple of a large N plus 0..2, so cost / (total score) differs between projects by about 1/N**2 (below any
+    'equal up to rounding' threshold for N >= 1500) while exact arithmetic still tells them apart; small costs, a binding
+    budget, every project with a supporter"""
+    sub = rng.getrandbits(48)
+    r = random.Random(sub)
+    k = r.randint(*m)
+    names = r.sample(NAME_POOL, k)
+    N = r.choice([1500, 2000, 2001, 10**4, 10**6, 2**31, 2**53 + 1])
+    pool = r.choice([[1, 1, 2], [1, 2, 2], [1, 1, 1], [F(3, 2), 3, 3]])
+    projects = [(x, F(r.choice(pool))) for x in names]
+    nv = r.randint(*n)
+    ballots = []
+    for _ in range(nv):
+        b = {x: F(N * r.choice([1, 1, 2]) + r.choice([0, 0, 1, 2])) for x in names if r.random() < 0.6}
+        ballots.append(b)
+    for x in names:
+        if not any(x in b for b in ballots):
+            r.choice(ballots)[x] = F(N + r.choice([0, 1]))
+    budget = _binding_budget(r, projects)
+    return Case(projects, budget, "card", ballots, seed=sub)
+
+
 # ----------------------------------------------------------------------------------------------
 # opt-in generators added in round 4 (nothing above draws from them: the streams of the existing checks are unchanged)
 
